@@ -10,6 +10,7 @@
 namespace vf {
 
 enum ValKind { V_U64, V_I64, V_U32, V_I32, V_U16, V_I16, V_U8, V_I8, V_F64, V_F32, V_STR, V_BYTES, V_NKINDS };
+inline bool& str_nul_enabled() { static bool b = false; return b; }   // set by monitors that want NUL-carrying string keys
 inline const char* kind_name(int k) {
   static const char* n[] = {"u64","i64","u32","i32","u16","i16","u8","i8","f64","f32","str","bytes"};
   return n[k];
@@ -117,6 +118,8 @@ inline Val gen_val(Rng& r, uint64_t domain, int kind = -1) {
       size_t len = 1 + r.below(r.chance(0.1) ? 40 : 9);
       uint64_t t = x; v.s.clear();
       for (size_t i = 0; i < len; ++i) { v.s += char('a' + (t % 26)); t = t / 26 + (i + 1) * 7; }
+      // opt-in (C13): a std::string key may carry an embedded NUL; the whole length() is the key, not the C string
+      if (str_nul_enabled() && r.chance(0.15)) v.s[size_t(x % len)] = '\0';
       break;
     }
     case V_BYTES: {
